@@ -53,7 +53,8 @@ rfbBool HandleCursorShape(rfbClient* client,int xhot, int yhot, int width, int h
   bytesPerRow = (width + 7) / 8;
   bytesMaskData = bytesPerRow * height;
 
-  if (width * height == 0)
+  /* width and height are 16-bit wire values: their product can exceed INT_MAX */
+  if (width == 0 || height == 0)
     return TRUE;
 
   if (width >= MAX_CURSOR_SIZE || height >= MAX_CURSOR_SIZE)
